@@ -319,7 +319,7 @@ impl Check for C20 {
         "C20"
     }
     fn units(&self, tier: Tier, _seed: u64) -> u64 {
-        1 + tier.pick(16, 160)
+        1 + tier.pick(64, 320)
     }
     fn run_unit(&self, unit: u64, ctx: &mut Ctx) {
         if unit == 0 {
@@ -361,7 +361,7 @@ impl Check for C20 {
         "EXHAUSTIVE over the finite vocabularies: every item Analysis::completion offers at 6 keyword/type/value fixtures and 3 '!'-trigger fixtures is lexed by the server's Lexer and must be exactly one token of the keyword / type / operator kind an independent name table assigns (c14.rs tables); every file-level keyword must start a minimal statement of the documented grammar that syntax::parse accepts with zero errors; every offered type must be accepted in a field declaration; for every candidate operator name (the reference's 52 names + known variants + everything offered) that the Lexer classifies as a bang/cond operator, the name must be among the operators offered after '!'. SAMPLED: random workspaces (root + optional include) declaring 1-9 classes of arity 0-3 plus a def and a multiclass; completion at a parent-class position (class and def parents, first and later parent, statement closed or still being typed, prefix of every length) must offer exactly the workspace's classes, each with one snippet placeholder per template parameter. non-trivial = each (fixture, offered item) pair and each class-completion workspace; distinct by digest".into()
     }
     fn floors(&self, tier: Tier) -> Vec<(&'static str, u64)> {
-        vec![("vocabulary_unit", 1), ("vocabulary_items", 30), ("operator_items", 100), ("lexer_accepted_operators", 150), ("toplevel_statements_parsed", 20), ("class_completion_cases", tier.pick(900, 30_000)), ("class_completion_with_include", 300), ("arity:3", 100)]
+        vec![("vocabulary_unit", 1), ("vocabulary_items", 30), ("operator_items", 100), ("lexer_accepted_operators", 150), ("toplevel_statements_parsed", 20), ("class_completion_cases", tier.pick(3500, 60_000)), ("class_completion_with_include", 300), ("arity:3", 100)]
     }
     fn exhaustive(&self, _tier: Tier) -> Option<String> {
         Some("the completion vocabularies at the 9 fixtures x the lexer's keyword and operator tables (finite)".into())
